@@ -79,6 +79,25 @@ def run(ctx):
                     cases.append({"id": "bx%d.%d.%d" % (i, lead, pos), "kind": "b58cand", "text": T(cand), "hr": [h256row(raw[:-4])] if raw and len(raw) >= 4 else [],
                                   "accepted": got[0] == "ok", "back": B(got[1]) if got[0] == "ok" else []})
                 ctx.nontriv(("b58cand", n))
+    # strings that decode to fewer than the 4 checksum bytes, and Base58Check texts of short payloads with the checksum cut
+    # short: never a valid Base58Check string, whatever the bytes that remain happen to be
+    import hashlib as _hl
+    shorts = [""] + list(B58A) + ([a + b for a in B58A for b in B58A] if not q else [rng.choice(B58A) + rng.choice(B58A) for _ in range(150)])
+    for payload in (b"", b"\x00", b"\x00\x00", b"\x01", b"\xff\xfe"):
+        chk = _hl.sha256(_hl.sha256(payload).digest()).digest()[:4]
+        for keep in range(0, 4):
+            t = outcome(H.encode_base58, payload + chk[:keep])
+            if t[0] == "ok" and not (payload == b"" and keep == 0):
+                shorts.append(t[1])
+        full = outcome(H.encode_base58_checksum, payload)
+        if full[0] == "ok":
+            shorts += [full[1][:j] for j in range(len(full[1]))] + [full[1][j:] for j in range(1, len(full[1]))] + [full[1]]
+    for j, cand in enumerate(dict.fromkeys(shorts)):
+        raw = b58dec(cand)
+        got = outcome(H.raw_decode_base58, cand)
+        cases.append({"id": "bs%d" % j, "kind": "b58cand", "text": T(cand), "hr": [h256row(raw[:-4])] if raw and len(raw) >= 4 else [],
+                      "accepted": got[0] == "ok", "back": B(got[1]) if got[0] == "ok" else []})
+        ctx.nontriv(("b58short", len(cand) if len(cand) < 4 else "n", got[0] == "ok"))
     # segwit addresses: every version x length x network (quick: sampled lengths)
     k = 0
     for ver in range(17):
